@@ -518,3 +518,42 @@ def run(ctx):
             r7.ok("%s calls ctl_destroy(owner=%s)" % (api, bool(want)), "constant argument")
         else:
             r7.violation("%s:ctl_destroy" % api, "%s does not call ctl_destroy with owner=%s" % (api, bool(want)), loc=f.file)
+
+    # a new session starts from a fully initialised slot: slots are recycled (remove_client copies the last
+    # entry down and never clears), so every scalar field must be stored when a session is accepted
+    r8 = ctx.rule("C14.R8", "a newly accepted control session starts from a fully initialised slot (slots are recycled)")
+    crec = P.record("client")
+    scalars = [fl["name"] for fl in crec["fields"] if not (fl.get("type") or fl.get("t") or "").startswith("struct ")]
+    acc = [f for f in srv_fns if any(op in ("++", "post++") and f.fields_of(lhs)[-1:] == ("num_clients",) for b, i, e, lhs, rhs, op in f.stores())]
+    if len(acc) != 1 or len(scalars) < 3:
+        raise Broken("C14.R8: session-accepting function / scalar fields of struct client not found (%d, %s)" % (len(acc), scalars))
+    af = acc[0]
+    r8.instance(af.qname)
+    stored = set()
+    for b, i, e, lhs, rhs, op in af.stores():
+        ln = af.sn(lhs)
+        if ln["k"] == "member" and ln.get("record") == "client":
+            stored.add(ln["field"])
+    # ... on every path that increments the count
+    missing = [x for x in scalars if x not in stored]
+    if missing:
+        r8.violation("%s:uninitialised:%s" % (af.name, ",".join(missing)), "%s accepts a session without initialising %s of its (recycled) slot: the new session "
+                     "inherits the state of a session that was removed earlier (e.g. a reply still marked pending is sent to the wrong client)" % (af.name, missing), loc=af.file)
+    else:
+        class Init(C.Rule):
+            def initial(self, fn):
+                return frozenset()
+
+            def elem(self, fn, st, nid, blk, idx):
+                n = fn.nodes[nid]
+                if n["k"] == "bin" and n["op"] == "=":
+                    ln = fn.sn(n["l"])
+                    if ln["k"] == "member" and ln.get("record") == "client":
+                        return st | {ln["field"]}
+                return None
+
+            def at_exit(self, fn, st, blk):
+                if st and not set(scalars) <= st:
+                    r8.violation("%s:partly-initialised" % fn.name, "a path through %s stores only %s of the slot" % (fn.name, sorted(st)), loc=fn.file)
+        C.explore(af, Init())
+        r8.ok("%s stores every scalar field (%s) of the new session's slot" % (af.qname, scalars), "field coverage on all paths")
